@@ -8,7 +8,7 @@ CHECKS = {
         "registered": True,
         "engine": "pmc-os",
         "technique": "stateless preemption-bounded exhaustive schedule enumeration of the real containers (controlled scheduler over hooked atomics) + exhaustive sequential op histories vs reference model",
-        "level_text": "Every interleaving of the containers' atomic steps within the stated deviation bound (all interleavings for the 2x2 index-queue programs), for every initial content and every op word of the small alphabet, is executed on the real code and checked for exactly-once delivery, no invention, successful quiescent pops and per-end order. Bounded-exhaustive, not sampled. Also: single-threaded phase histories with sizes across the block (32) and block-index (1024) boundaries of the FIFO back-end for all four back-ends; three consumers racing for fewer elements (3 deviations, focus on the dequeue path); producer threads that come and go (20 OS threads: growth of the producer hash, thread exit, sub-queue recycling, thread-id re-use) with two overlapping pushes at the end.",
+        "level_text": "Every interleaving of the containers' atomic steps within the stated deviation bound (all interleavings for the 2x2 index-queue programs), for every initial content and every op word of the small alphabet, is executed on the real code and checked for exactly-once delivery, no invention, successful quiescent pops and per-end order. Bounded-exhaustive, not sampled. Also: single-threaded phase histories with sizes across the block (32) and block-index (1024) boundaries of the FIFO back-end for all four back-ends; three consumers racing for fewer elements (3 deviations, focus on the dequeue path); producer threads that come and go (20 OS threads: growth of the producer hash, thread exit, sub-queue recycling, thread-id re-use) with two overlapping pushes at the end. Two producer threads whose ids collide in the FIFO back-end's 32-slot producer hash (found among 20 candidates), the displaced one exits, its id is re-used while another new thread is handed the recycled sub-queue, both pushing at once (2 deviations).",
         "level_note": "Sequentially consistent interleavings only (weak-memory reorderings are not modelled); compare_exchange_weak never fails spuriously; choice points at the atomics of the container sources (F-site) and the watched queue object; bounds per spec are in the evidence. ConcurrentQueue's thread-exit recycling (MOODYCAMEL_CPP11_THREAD_LOCAL_SUPPORTED) is switched on explicitly in the instrumented library and all harnesses: the header enables it for g++ (the compiler of /repo's build) but not for the clang that compiles the instrumented code (clang reports __GNUC__ 4.2).",
         "rule": "pmc-os: initial contents x op words (data choices) x all schedules of the container's atomic steps within the deviation bound; sequential histories against a reference container",
         "parts": [{"bin": "C17_index_queue"}, {"bin": "C17_deque"}],
@@ -19,7 +19,7 @@ CHECKS["C06"] = {
     "registered": True,
     "engine": "pmc-rt",
     "technique": "stateless preemption-bounded exhaustive schedule enumeration of pika tasks on a live 2-worker runtime (controlled scheduler over hooked atomics + interposed pthreads, virtual clock)",
-    "level_text": "Every schedule within the deviation bound (preemptions at the atomics of the mutex object and the task state words, early timeouts) of every small lock/try_lock/timed/recursive/misuse program is executed on the real runtime; occupancy, critical-section visibility, hand-off (no stuck waiter), try-result truthfulness and error reporting are checked in each execution. Critical sections contain a scheduling point; recursive spin mutex explored at 2 deviations. The spinlocks also from plain OS threads (3 threads x 1 section, 2 x 2; 4 deviations): hand-over after a release with several contenders.",
+    "level_text": "Every schedule within the deviation bound (preemptions at the atomics of the mutex object and the task state words, early timeouts) of every small lock/try_lock/timed/recursive/misuse program is executed on the real runtime; occupancy, critical-section visibility, hand-off (no stuck waiter), try-result truthfulness and error reporting are checked in each execution. Critical sections contain a scheduling point; recursive spin mutex explored at 2 deviations. The spinlocks also from plain OS threads (3 threads x 1 section, 2 x 2; 4 deviations): hand-over after a release with several contenders. Recursive mutex nested to depths at the boundaries of 8- and 16-bit counters (input enumeration): the other task's try_lock fails until the last unlock.",
     "level_note": "Sequentially consistent interleavings only; 2 workers, 2-3 tasks, 1-2 critical sections each; choice points at atomics on the watched mutex and task thread_data (unwatched runtime internals run in canonical order); bounds per spec in the evidence.",
     "rule": "pmc-rt: task programs over {lock, try_lock, lock+yield, relock, try_lock_for/until, re-entrant lock} (data choices) x all schedules within the deviation bound",
     "parts": [{"bin": "C06_mutex"}],
@@ -29,7 +29,7 @@ CHECKS["C08"] = {
     "registered": True,
     "engine": "pmc-rt",
     "technique": "stateless deviation-bounded (preemptions + early timeouts) exhaustive schedule enumeration of semaphore programs on a live 2-worker runtime and on plain OS threads; sequential histories vs reference counter",
-    "level_text": "Every schedule within the deviation bound of every small acquire/try_acquire/release/timed-acquire program (all initial counts 0..2, programs that cannot terminate skipped), and of sliding-semaphore wait/try_wait/signal programs, is executed on the real code; a permit ledger, the final count, blocked-acquirer liveness (stuck detector) and the truthfulness of try/timed results are checked in each execution. Further programs: two blocked acquirers and two releases (back to back / release(2) / two releasers), timed acquires with two different time-outs, sliding semaphore reconfigured (set_max_difference) while a task is blocked.",
+    "level_text": "Every schedule within the deviation bound of every small acquire/try_acquire/release/timed-acquire program (all initial counts 0..2, programs that cannot terminate skipped), and of sliding-semaphore wait/try_wait/signal programs, is executed on the real code; a permit ledger, the final count, blocked-acquirer liveness (stuck detector) and the truthfulness of try/timed results are checked in each execution. Further programs: two blocked acquirers and two releases (back to back / release(2) / two releasers), timed acquires with two different time-outs, sliding semaphore reconfigured (set_max_difference) while a task is blocked. Sliding semaphore with distances and limits up to INT64_MAX (grid against a 128-bit oracle) and a waiter blocked with upper limit INT64_MAX.",
     "level_note": "Sequentially consistent interleavings only; 2 workers, 2-3 tasks; the virtual clock only lets a deadline pass as an explorer deviation or when nothing else can run; choice points at atomics on the semaphore object and task state words.",
     "rule": "pmc-rt/pmc-os: initial count x op words (data choices) x all schedules within the deviation bound; sequential histories depth<=4",
     "parts": [{"bin": "C08_semaphore"}],
@@ -39,7 +39,7 @@ CHECKS["C07"] = {
     "registered": True,
     "engine": "pmc-rt",
     "technique": "stateless deviation-bounded (preemptions + early timeouts) exhaustive schedule enumeration of waiter/notifier programs on a live 2-worker runtime and on plain OS threads",
-    "level_text": "Every schedule within the deviation bound of every waiter-form x notifier-form program (wait loop, wait(pred), wait_for(pred), wait_until loop, stop-token wait; notify_all/notify_one, inside/outside the user lock) is executed on the real code; lost notifications show up as a stuck execution, and lock ownership on return, predicate values, timeout reports and stop-token returns are asserted in each execution. Further programs: one notify_one for an untimed and a timed (predicate-less) waiter; a stop-token wait queued behind another waiter of the same condition variable.",
+    "level_text": "Every schedule within the deviation bound of every waiter-form x notifier-form program (wait loop, wait(pred), wait_for(pred), wait_until loop, stop-token wait; notify_all/notify_one, inside/outside the user lock) is executed on the real code; lost notifications show up as a stuck execution, and lock ownership on return, predicate values, timeout reports and stop-token returns are asserted in each execution. Further programs: one notify_one for an untimed and a timed (predicate-less) waiter; a stop-token wait queued behind another waiter of the same condition variable. A waiter that leaves wait() through an interruption while another waiter is queued: the following notify_one belongs to the remaining waiter (condition_variable and condition_variable_any, either queue order).",
     "level_note": "Sequentially consistent interleavings only; 2 workers, 1-2 waiters, 1 notifier; timed waits are pika's yield-until-deadline loops driven by the virtual clock (expiry before/after the notification is an explorer deviation); timed forms on plain OS threads are not exercised (pika implements them with a plain sleep).",
     "rule": "pmc-rt/pmc-os: waiter forms x notifier forms (data choices) x all schedules within the deviation bound",
     "parts": [{"bin": "C07_condvar"}],
@@ -49,7 +49,7 @@ CHECKS["C02"] = {
     "registered": True,
     "engine": "pmc-rt",
     "technique": "stateless preemption-bounded exhaustive schedule enumeration of suspend/wake-up programs on a live 2-worker runtime; quiescence-with-suspended-task (stuck) detector as oracle",
-    "level_text": "Every schedule within the deviation bound of suspender/waker programs (waker = task on the other worker or external non-pika thread, optional busy task, one or two waiters, cv and mutex facilities) is executed on the real runtime; a quiescent runtime with an issued wake-up and a task that did not run again is reported, with the pool's thread counts. Further programs: two wake-ups with different restart states (notify_one + interrupt), a notified timed wait (the pending_boost path); thread::interrupt (the non-retrying form of set_thread_state) as the only wake-up.",
+    "level_text": "Every schedule within the deviation bound of suspender/waker programs (waker = task on the other worker or external non-pika thread, optional busy task, one or two waiters, cv and mutex facilities) is executed on the real runtime; a quiescent runtime with an issued wake-up and a task that did not run again is reported, with the pool's thread counts. Further programs: two wake-ups with different restart states (notify_one + interrupt), a notified timed wait (the pending_boost path); thread::interrupt (the non-retrying form of set_thread_state) as the only wake-up. A waiter on a plain OS thread (default agent: std::mutex and condition variables), its agent watched so that timed waits inside it are deadlines the explorer may let pass right where they block.",
     "level_note": "Sequentially consistent interleavings only; 2 workers; choice points at the waiter state words, the internal lock/condition variable and at the atomics of set_thread_state, set_active_state, do_yield/do_resume, create_work and switch_status (F-site); fairness is the spin detector of the scheduler. The Promela layer sketched in DESIGN.md was not built.",
     "rule": "pmc-rt: suspender / waker / helper-task programs x all schedules within the deviation bound",
     "parts": [{"bin": "C02_wakeup"}],
@@ -69,7 +69,7 @@ CHECKS["C14"] = {
     "registered": True,
     "engine": "seqx + pmc-os + pmc-rt",
     "technique": "BFS over sequential copy/move/assign/register histories vs a reference stop-state model (de-duplicated on the model state, every transition replayed on the real objects) + stateless preemption-bounded exhaustive schedule enumeration of racing request_stop / register / destroy programs",
-    "level_text": "All operation histories to depth 5 (6 thorough) over 2 sources, 2 tokens and 2 callbacks are executed on the real classes, on a plain thread and inside a pika task, and compared step by step with a reference model (stop_possible, stop_requested, request_stop results, callback run counts; a history that does not return is a reported hang). Racing request_stop callers, registration vs request_stop, destruction vs a running callback and self-deregistration are explored over every schedule within the deviation bound on OS threads and on pika tasks. Also: token queries (stop_possible / stop_requested) racing with callback registration and deregistration, with and without a remaining stop_source. A callback that is resumed on another worker (its worker kept busy by another task) and then destroys itself.",
+    "level_text": "All operation histories to depth 5 (6 thorough) over 2 sources, 2 tokens and 2 callbacks are executed on the real classes, on a plain thread and inside a pika task, and compared step by step with a reference model (stop_possible, stop_requested, request_stop results, callback run counts; a history that does not return is a reported hang). Racing request_stop callers, registration vs request_stop, destruction vs a running callback and self-deregistration are explored over every schedule within the deviation bound on OS threads and on pika tasks. Also: token queries (stop_possible / stop_requested) racing with callback registration and deregistration, with and without a remaining stop_source. A callback that is resumed on another worker (its worker kept busy by another task) and then destroys itself. History alphabet also: token swap and move assignment, source move construction, stop_source(nostopstate), callback constructed from an rvalue token.",
     "level_note": "Sequentially consistent interleavings only; 2-3 racing threads/tasks; callbacks contain two harness scheduling points so that the 'is executing' window is wide; histories are bounded by depth, not by the number of objects (2 of each).",
     "rule": "seqx: BFS histories depth<=5/6; pmc: race programs x all schedules within the deviation bound",
     "parts": [{"bin": "C14_stop_seq", "part": "seq"}, {"bin": "C14_stop_race", "part": "race"}],
@@ -99,7 +99,7 @@ CHECKS["C05"] = {
     "registered": True,
     "engine": "pmc-rt",
     "technique": "stateless preemption-bounded exhaustive schedule enumeration of runtime life-cycle histories (start/submit/wait/finalize/stop/restart/suspend/resume, external submitter) on the real runtime with a completion ledger read right after each call returns",
-    "level_text": "Every schedule within the deviation bound of the life-cycle histories is executed on the real runtime: wait() and stop() must not return before every task submitted earlier (and every task those spawn) has finished, stop() must not return before finalize() and must return the entry function's result, a second incarnation with a different worker count and policy runs its own work completely, no body runs between suspend() returning and resume(), and work queued in that window completes after resume; calls that never return are stuck executions. Further histories: five restarts in a row, stop() entered while an entry function has returned non-zero without finalizing, resume(); suspend() back to back before work is queued. pika::wait() with the local and static queue policies (their own create_thread accounting).",
+    "level_text": "Every schedule within the deviation bound of the life-cycle histories is executed on the real runtime: wait() and stop() must not return before every task submitted earlier (and every task those spawn) has finished, stop() must not return before finalize() and must return the entry function's result, a second incarnation with a different worker count and policy runs its own work completely, no body runs between suspend() returning and resume(), and work queued in that window completes after resume; calls that never return are stuck executions. Further histories: five restarts in a row, stop() entered while an entry function has returned non-zero without finalizing, resume(); suspend() back to back before work is queued. pika::wait() with the local and static queue policies (their own create_thread accounting). An entry function that calls finalize() first and keeps working before it returns its (non-zero) result.",
     "level_note": "Sequentially consistent interleavings only; 1-2 workers, 4 policies; choice points at store/rmw/cas sites of the activity counter, thread_manager, scheduled_thread_pool, scheduler_base suspend/resume, runtime wait/stop/finalize and create/destroy_thread (F-site); all pthread blocking points are scheduling decisions.",
     "rule": "pmc-rt: life-cycle histories x policies (data choices) x all schedules within the deviation bound",
     "parts": [{"bin": "C05_lifecycle"}],
@@ -119,7 +119,7 @@ CHECKS["C03"] = {
     "registered": True,
     "engine": "pmc-os",
     "technique": "stateless preemption-bounded exhaustive schedule enumeration of sender pipelines with instrumented leaves (value/error/stopped, inline or deferred), a manual scheduler, recording receivers and payload/allocation ledgers on the real header-only adaptors",
-    "level_text": "Every schedule within the deviation bound of every pipeline of the curated set (then, let_value, let_error, when_all, when_all_vector, split, split_tuple, ensure_started, continues_on, schedule, transfer_just, start_detached, sync_wait, drop_value, drop_operation_state, require_started, unpack, unique_any_sender and depth-2 combinations), for every completion channel at every leaf and inline or deferred completion, with one or two consumers on different threads, is executed on the real code; each receiver must get exactly one signal on the denoted channel with the denoted payload, never after its operation state was destroyed; payload objects and heap blocks must be released exactly once (quarantined, poisoned blocks detect use after free).",
+    "level_text": "Every schedule within the deviation bound of every pipeline of the curated set (then, let_value, let_error, when_all, when_all_vector, split, split_tuple, ensure_started, continues_on, schedule, transfer_just, start_detached, sync_wait, drop_value, drop_operation_state, require_started, unpack, unique_any_sender and depth-2 combinations), for every completion channel at every leaf and inline or deferred completion, with one or two consumers on different threads, is executed on the real code; each receiver must get exactly one signal on the denoted channel with the denoted payload, never after its operation state was destroyed; payload objects and heap blocks must be released exactly once (quarantined, poisoned blocks detect use after free). Values whose copy constructor fails (copy fuse: the k-th copy after start throws) handed by reference through any_sender / unique_any_sender(split(..)): exactly one completion, the error.",
     "level_note": "Sequentially consistent interleavings only; the quick tier uses terms of depth 1-2 from a curated list; the thorough tier adds the generated closure of depth 1-2 over 12 unary adaptors (153 terms, expected completion from a reference interpreter; split | let_error does not compile with pika and is excluded); bulk is covered by C11 and the thread pool scheduler by C10; choice points at all atomics of the adaptor headers, any_sender and reference counts (F-site) plus harness points at leaf registration / firing / after start.",
     "rule": "pmc-os: pipelines x leaf channels x timing x consumer placement (data choices) x all schedules within the deviation bound",
     "parts": [{"bin": "C03_senders"}, {"bin": "C03_terms", "part": "generated-terms", "tiers": ["thorough"]}],
@@ -149,7 +149,7 @@ CHECKS["C12"] = {
     "registered": True,
     "engine": "pmc-rt",
     "technique": "stateless preemption-bounded exhaustive schedule enumeration (= enumeration of migration and recycling patterns) of canary-carrying task bodies on a live 2-worker runtime",
-    "level_text": "Every schedule within the deviation bound - i.e. every pattern of which worker resumes which task and in which order thread objects are recycled - of bodies that plant stack canaries at call depth, key-derived callee-saved register canaries (assembly probe around the switch), task-local data and identity, and then yield or suspend twice, for all four stack classes with 2-3 live tasks, is executed on the real runtime; after every switch everything is compared, locals must lie inside the task's own stack and stacks of live tasks must be disjoint; successors of a predecessor that leaves an unconsumed interruption request and task data behind must start clean; a separate program checks the floating-point control state. Also: thread objects recycled across stack-size classes (distinct non-default sizes for all four classes) and the stack-size class 'current' for children and grandchildren at normal and high priority.",
+    "level_text": "Every schedule within the deviation bound - i.e. every pattern of which worker resumes which task and in which order thread objects are recycled - of bodies that plant stack canaries at call depth, key-derived callee-saved register canaries (assembly probe around the switch), task-local data and identity, and then yield or suspend twice, for all four stack classes with 2-3 live tasks, is executed on the real runtime; after every switch everything is compared, locals must lie inside the task's own stack and stacks of live tasks must be disjoint; successors of a predecessor that leaves an unconsumed interruption request and task data behind must start clean; a separate program checks the floating-point control state. Also: thread objects recycled across stack-size classes (distinct non-default sizes for all four classes) and the stack-size class 'current' for children and grandchildren at normal and high priority. Every canary task's callable owns state whose destructor (run when the runtime destroys the thread function, still as part of the task) checks the identity, yields and checks again.",
     "level_note": "Sequentially consistent interleavings only; 2 workers; default stack sizes, default guard-page setting; stack overflow probing is not attempted; the 'program' dimension is small (two switches, depth 0 or 3) - the value of the check is the exhaustive migration x recycling product.",
     "rule": "pmc-rt: canary bodies x stack classes x switch kinds (data choices) x all schedules within the deviation bound",
     "parts": [{"bin": "C12_context"}],
@@ -159,7 +159,7 @@ CHECKS["C18"] = {
     "registered": True,
     "engine": "seqx",
     "technique": "BFS over wrapper operation histories de-duplicated on the reference model, every transition replayed on fresh real wrappers and compared step by step with the un-erased behaviour (differential) + lifetime ledger",
-    "level_text": "All histories to depth 4 (5 thorough) over two wrapper slots - assign a small / larger-than-inline-buffer / throwing / move-only callable or empty, copy-assign (incl. self), move-assign, reset, swap, call, copy-construct a temporary - for function and unique_function, and 12 move/copy/reset/connect scripts x inline/heap stored sender x value/error/stopped for any_sender and unique_any_sender, are executed on the real wrappers; empty flags, call results (per-copy counters show copies are independent), exception kinds on empty use, and the number of live instances per payload kind after every step and at the end are compared with the un-erased reference. Sender wrappers: all histories up to depth 3 (thorough 4) over two slots x {store small/large, move-assign, copy-assign, assign empty, reset, move-construct, connect as rvalue / lvalue} x value/error/stopped; function wrappers: move construction added, all histories up to depth 3 (thorough 4) without de-duplication. any_sender assigned / constructed from a non-const lvalue sender: the original stays intact.",
+    "level_text": "All histories to depth 4 (5 thorough) over two wrapper slots - assign a small / larger-than-inline-buffer / throwing / move-only callable or empty, copy-assign (incl. self), move-assign, reset, swap, call, copy-construct a temporary - for function and unique_function, and 12 move/copy/reset/connect scripts x inline/heap stored sender x value/error/stopped for any_sender and unique_any_sender, are executed on the real wrappers; empty flags, call results (per-copy counters show copies are independent), exception kinds on empty use, and the number of live instances per payload kind after every step and at the end are compared with the un-erased reference. Sender wrappers: all histories up to depth 3 (thorough 4) over two slots x {store small/large, move-assign, copy-assign, assign empty, reset, move-construct, connect as rvalue / lvalue} x value/error/stopped; function wrappers: move construction added, all histories up to depth 3 (thorough 4) without de-duplication. any_sender assigned / constructed from a non-const lvalue sender: the original stays intact. Sender histories include storing a sender whose construction inside the wrapper throws (through operator= and reset): the wrapper must stay truthful about being empty and destroy everything once.",
     "level_note": "Sequential code only; two slots; one payload clearly below and one clearly above the inline buffer size rather than every size around the threshold.",
     "rule": "seqx: BFS histories depth<=4/5 over 2 slots; sender scripts grid",
     "parts": [{"bin": "C18_type_erasure", "part": "seq"}],
@@ -193,7 +193,7 @@ CHECKS["C16"] = {
     "registered": True,
     "engine": "seqx",
     "technique": "exhaustive configuration grid, one process per point: sources^settings combinations, invalid values, unknown options and non-pika arguments run through a real pika program that reports the values in effect from inside the runtime; reference resolver as oracle",
-    "level_text": "For the settings worker count, scheduling policy, binding, small stack size, process mask and a free ini entry, every non-empty subset of their sources {command-line option, environment variable, PIKA_COMMANDLINE_OPTIONS, --pika:ini} with the other settings at default, every source pair for every pair of settings (thorough: triples), option-order permutations, invalid values and unknown options per source, and non-pika arguments are each run as a separate process of a probe program; the values the started runtime really uses (worker count, scheduler in use, worker affinities, stack size of a task, config entries) must be the ones the precedence denotes, invalid/unknown input must stop start-up with a message, positional arguments must arrive in order and application options as given. Settings include all four stack-size classes; sources include --pika:ini entries inside PIKA_COMMANDLINE_OPTIONS; invalid values include process masks with bits past the last PU.",
+    "level_text": "For the settings worker count, scheduling policy, binding, small stack size, process mask and a free ini entry, every non-empty subset of their sources {command-line option, environment variable, PIKA_COMMANDLINE_OPTIONS, --pika:ini} with the other settings at default, every source pair for every pair of settings (thorough: triples), option-order permutations, invalid values and unknown options per source, and non-pika arguments are each run as a separate process of a probe program; the values the started runtime really uses (worker count, scheduler in use, worker affinities, stack size of a task, config entries) must be the ones the precedence denotes, invalid/unknown input must stop start-up with a message, positional arguments must arrive in order and application options as given. Settings include all four stack-size classes; sources include --pika:ini entries inside PIKA_COMMANDLINE_OPTIONS; invalid values include process masks with bits past the last PU. Case family: the higher source names exactly the built-in default while a lower source names another value.",
     "level_note": "Where the statement gives no order (environment variable vs PIKA_COMMANDLINE_OPTIONS; a dedicated option vs a generic --pika:ini entry for the same key) either candidate is accepted; application options are compared as a multiset (pika hands them to the entry function re-ordered, positional arguments keep their order); the real 16-PU machine, no synthetic topology.",
     "rule": "seqx grid, process per point",
     "parts": [{"bin": "C16_probe", "part": "probe-build", "kind": "buildonly"}, {"kind": "script", "bin": "harness/c16_grid.py", "part": "grid"}],
@@ -205,7 +205,7 @@ CHECKS["C20"] = {
     "registered": True,
     "engine": "pmc-rt + mock MPI",
     "technique": "stateless deviation-bounded exhaustive exploration of thread schedules and of the MPI environment's poll answers (pending/complete) on the MPI-enabled instrumented build, with MPI_Test/Testany/Testsome mocked in the harness executable",
-    "level_text": "For every completion mode 0-31, with and without a dedicated polling pool, with 1-2 outstanding requests, every combination of 'still pending' answers of the mock MPI and every thread schedule within the deviation bound is executed on the real polling code; each receiver must be signalled exactly once, only after the mock reported its request complete and with the received data visible, and pika::wait() must not return while a request is in flight (a lost completion is a stuck execution). A directed 34-request program holds back the first 33 requests until the last has completed (pika tests the polling vector in chunks of 32). Further programs: a detached request with pika::wait() as the only waiter; two requests with a dedicated polling pool where MPI test calls take time (scheduling point + yields inside the mock) and requests do not complete eagerly; three requests with the plain loads and stores of the polling function's request/callback vector code as scheduling points (polling module built with memory-access instrumentation).",
+    "level_text": "For every completion mode 0-31, with and without a dedicated polling pool, with 1-2 outstanding requests, every combination of 'still pending' answers of the mock MPI and every thread schedule within the deviation bound is executed on the real polling code; each receiver must be signalled exactly once, only after the mock reported its request complete and with the received data visible, and pika::wait() must not return while a request is in flight (a lost completion is a stuck execution). A directed 34-request program holds back the first 33 requests until the last has completed (pika tests the polling vector in chunks of 32). Further programs: a detached request with pika::wait() as the only waiter; two requests with a dedicated polling pool where MPI test calls take time (scheduling point + yields inside the mock) and requests do not complete eagerly; three requests with the plain loads and stores of the polling function's request/callback vector code as scheduling points (polling module built with memory-access instrumentation). The MPI call itself returning an error code (request left null / complete / pending): exactly one completion, an error (genuine defect, fixed). A persistent request started three times (the completed handle stays in the tested array, inactive).",
     "level_note": "MPI itself is mocked (requests are harness objects, completion is the explorer's choice); real OpenMPI progress and timing are not exercised; the MPIX continuation modes (32-39) need an MPI extension that is not installed; sequentially consistent interleavings; at most 2 non-canonical successor choices at blocking points per execution.",
     "rule": "pmc-rt: modes x requests x poll answers (data choices, pending costs a deviation) x all schedules within the deviation bound",
     "parts": [{"bin": "C20_mpi", "pika_build": "pika-mpi-mc", "extra": _MPI_EXTRA, "extralibs": _MPI_LIBS}],
